@@ -4,7 +4,7 @@
    run <autofix 0|1> <show 0|1> <nonly> <hex>... <hexfile> <hexbefore>
        <nlines> { <nraws> <hextext> <hexraw>... } <nevents> { event }
      event = T <line> <hexdiag> <nops> { op } | S | P | X <exec 0|1>
-     op    = RA <prefix> <from> <to> | RT <ri> <ti> <from> <to> | IA <t> | IB <t> | D | CS <ri> | CC <ri>
+     op    = RA <prefix> <from> <to> | RT <ri> <ti> <from> <to> | IA <t> | IB <t> | D | CC <ri>
      -> "panic" | "<log>;<hexdisk>;<nops>;<lines>"
         log = entries joined by ","    lines = per line  <hextext>/<hexraw>/...  joined by "," *)
 let parse_entry (s : string) : entry =
@@ -47,8 +47,7 @@ let run_request (toks : string list) : string =
     | "IA" -> OInsertAbove (nstr ())
     | "IB" -> OInsertBelow (nstr ())
     | "D" -> ODelete
-    | "CS" -> OCustom (z_of_int (nint ()), DSort)
-    | "CC" -> OCustom (z_of_int (nint ()), DChmod)
+    | "CC" -> OCustom (z_of_int (nint ()))
     | x -> failwith ("bad op " ^ x) in
   let event () = match next () with
     | "T" -> let line = nint () in let diag = nstr () in let ops = times (nint ()) op in
